@@ -1,6 +1,7 @@
 import FluentProofs.ConstTieNum
 import FluentProofs.NumRules
 import FluentProofs.NumMerge
+import FluentProofs.BundleLocale
 /-!
 # C12 — numbers keep their written precision and select the locale's plural category
 
@@ -207,6 +208,17 @@ theorem plural_category_total (locale : String) (n : FluentNumber) (hwf : WF n.v
     (pluralCategory locale n).isSome = true := by
   unfold pluralCategory pluralCategoryWith
   rw [operandsOf_eq hwf hi hv]; rfl
+
+/-- "the rule of the bundle's FIRST locale": the formatters (plural rules included) of a bundle are created for the
+head of its locale chain (`FluentBundle::new` / `new_concurrent`: `locales.first()`), so the category of every number
+is the same for all chains with that head — nothing after the first locale is consulted -/
+theorem first_locale_only (l : String) (r₁ r₂ : List String) (n : FluentNumber) :
+    pluralCategory (memoizerLocale (l :: r₁)) n = pluralCategory (memoizerLocale (l :: r₂)) n :=
+  FluentProofs.BundleLocale.category_tail_irrelevant l r₁ r₂ n
+
+/-- TEST: `["xx", "pl"]` selects with the rules of `xx` (none of its own: negotiated to `en`), not with Polish ones -/
+example : pluralCategory (memoizerLocale ["xx", "pl"]) ⟨⟨false, [2], []⟩, {}⟩ = some .other ∧
+    pluralCategory "pl" ⟨⟨false, [2], []⟩, {}⟩ = some .few := by decide
 
 /-! ## non-vacuity and CLDR sanity facts (these are TESTS on literals, checked by `decide`) -/
 
